@@ -628,6 +628,83 @@ def start_on_bad_config(run_dir):
     return []
 
 
+def overlapping_reloads(run_dir):
+    """Two edits, each followed by SIGUSR1, the second sent while the first reload is still loading a large
+    hosts file: once the server has gone quiet, answers must reflect the LAST edit ('later answers reflect
+    the new files only')."""
+    root = os.path.join(run_dir, "srv-overlap")
+    os.makedirs(os.path.join(root, "hd"), exist_ok=True)
+    # a hosts file large enough that loading takes a noticeable time
+    with open(os.path.join(root, "hd", "00-big.hosts"), "w") as f:
+        for i in range(250000):
+            f.write("10.%d.%d.%d h%d.big.test\n" % ((i >> 16) & 255, (i >> 8) & 255, i & 255, i))
+    small = os.path.join(root, "hd", "99-small.hosts")
+
+    def write_small(addr):
+        with open(small + ".tmp", "w") as f:
+            f.write("%s overlap.test\n" % addr)
+        os.replace(small + ".tmp", small)
+    write_small("10.9.9.1")
+    srv = Server(root, ["-A", "hd"])
+    fails = []
+    info = {"overlap_reloads": 0}
+    try:
+        if not srv.start():
+            return [core.Failure("harness", "the server did not start on the large hosts configuration", None, None, None, found_input=False)], info
+        c = Client(srv.port)
+        labels = ["overlap", "test"]
+
+        def addr_now():
+            r = c.ask(labels, 1)
+            return None if r is None else str(r)
+        first = addr_now()
+        for round_ in range(2):
+            a_mid = "10.9.%d.2" % (round_ + 1)
+            a_last = "10.9.%d.3" % (round_ + 1)
+            n0 = srv.done_count()
+            write_small(a_mid)
+            os.kill(srv.proc.pid, signal.SIGUSR1)
+            time.sleep(0.05 + 0.1 * round_)           # the first reload is busy with the big file
+            write_small(a_last)
+            os.kill(srv.proc.pid, signal.SIGUSR1)
+            # quiescence: at least one reload finished after the last signal and no new 'done' line for a while
+            t_end = time.time() + 120
+            last_n, last_change = srv.done_count(), time.time()
+            while time.time() < t_end:
+                n = srv.done_count()
+                if n != last_n:
+                    last_n, last_change = n, time.time()
+                if n > n0 and time.time() - last_change > 3.0:
+                    break
+                time.sleep(0.1)
+            info["overlap_reloads"] += srv.done_count() - n0
+            got = addr_now()
+            if not srv.alive():
+                fails.append(core.Failure("server-died-during-reload", "resolved exited during overlapping reloads", "overlap round %d" % round_, None, None))
+                break
+            if got is None or a_last not in got.replace(" ", ""):
+                want_tok = a_last
+                # compare on the decoded address rather than on the token text
+                ok_ = False
+                try:
+                    ip = int.from_bytes(bytes(int(x) for x in a_last.split(".")), "big")
+                    ok_ = got is not None and ("a%d" % ip) in got
+                except Exception:
+                    pass
+                if not ok_:
+                    fails.append(core.Failure(
+                        "reload-signal-lost",
+                        "two edits each followed by SIGUSR1 (the second while the first reload was running): after the server went quiet "
+                        "the answer is %s, the files say %s" % (core.trunc(got, 120), a_last),
+                        "C19-overlap hosts-dir: 250000-line hosts file + overlap.test %s -> %s -> %s" % (first and "initial", a_mid, a_last),
+                        core.trunc(got, 200), want_tok))
+                    break
+        c.close()
+    finally:
+        srv.stop()
+    return fails, info
+
+
 def extra(ctx):
     tier = ctx["tier"]
     ok, out = core.build_release_binaries(["resolved"])
@@ -667,6 +744,9 @@ def extra(ctx):
         for k, v in r[1].items():
             tot[k] = tot.get(k, 0) + v
     fails += start_on_bad_config(ctx["run_dir"])
+    of, oinfo = overlapping_reloads(ctx["run_dir"])
+    fails += of
+    tot.update(oinfo)
     info = {"binary": "build/target-release/release/resolved (cargo build --offline --release -p resolved, guard off), --authoritative-only, "
                       "RUST_LOG=resolved=info",
             "sequences": nseq, "wall_s": round(time.time() - t0, 1),
